@@ -21,8 +21,8 @@ type lifecycle struct {
 	nMutex    int
 	admit     *types.Func
 	release   *types.Func
-	counter   *types.Var // field incremented by admit
-	counterWG bool       // counter is a sync.WaitGroup
+	counter   *types.Var   // field incremented by admit
+	counterWG bool         // counter is a sync.WaitGroup
 	flags     []*types.Var // bool fields whose test makes admission fail
 	closeFn   *types.Func
 	doneFn    *types.Func
